@@ -209,24 +209,42 @@ class Check(PropertyCheck):
                 outdir = os.path.join(tmp, "out")
                 os.makedirs(indir)
                 files = {}
-                for k in range(self.rng.range(1, 5)):
+                stems = ["d%d", "flow.v%d", "net.1.%d", "My-Diagram_%d", "a b %d", "図%d", "x%d.bob", "UP%d", "d%d.tar"]
+                for k in range(self.rng.range(1, 6)):
                     t = gen.random_diagram(self.rng, 14, 4)
-                    files["d%d.bob" % k] = t
-                    open(os.path.join(indir, "d%d.bob" % k), "w", encoding="utf-8").write(t)
-                open(os.path.join(indir, "notes.txt"), "w").write("not a diagram")
-                pr = subprocess.run([self.bin, "build", "-i", os.path.join(indir, "*.bob"), "-o", outdir],
-                                    capture_output=True, timeout=120)
+                    name = (self.rng.choice(stems) % k) + ".bob"
+                    files[name] = t
+                    open(os.path.join(indir, name), "w", encoding="utf-8").write(t)
+                    if self.rng.chance(1, 3) and "." in name[:-4]:
+                        # a sibling whose name is the part before the first dot
+                        sib = name.split(".")[0] + ".bob"
+                        if sib not in files:
+                            files[sib] = gen.random_diagram(self.rng, 10, 3)
+                            open(os.path.join(indir, sib), "w", encoding="utf-8").write(files[sib])
+                others = ["notes.txt", "d0.txt", "bob", ".bob", "d1.bob.bak", "README"]
+                for o in others:
+                    open(os.path.join(indir, o), "w").write("+--+ not a diagram of the batch")
+                inplace = self.rng.chance(1, 4)
+                argv = [self.bin, "build", "-i", os.path.join(indir, "*.bob")] + ([] if inplace else ["-o", outdir])
+                if inplace:
+                    outdir = indir
+                pr = subprocess.run(argv, capture_output=True, timeout=120)
                 self.evaluations += 1
-                lib = common.run_impl("lib", ["%s to_svg default %s" % (n.replace(".", "_"), hx(t)) for n, t in files.items()])
-                case = {"argv": ["build", "-i", "in/*.bob", "-o", "out"], "files": files}
+                keys = {n: "f%d" % i for i, n in enumerate(files)}
+                lib = common.run_impl("lib", ["%s to_svg default %s" % (keys[n], hx(t)) for n, t in files.items()])
+                case = {"argv": ["build", "-i", "in/*.bob"] + ([] if inplace else ["-o", "out"]), "files": files,
+                        "other_files": others}
                 bad = None
                 for n, t in files.items():
-                    want = unhx(lib[n.replace(".", "_")][3:]).encode("utf-8")
+                    want = unhx(lib[keys[n]][3:]).encode("utf-8")
                     outp = os.path.join(outdir, n[:-4] + ".svg")
                     if not os.path.exists(outp) or open(outp, "rb").read() != want:
                         bad = "build did not write the library's document for %s" % n
-                if os.path.exists(os.path.join(outdir, "notes.svg")):
-                    bad = "build converted a file that does not match the pattern"
+                produced = sorted(f for f in os.listdir(outdir) if f.endswith(".svg")) if os.path.isdir(outdir) else []
+                expected = sorted(n[:-4] + ".svg" for n in files)
+                if bad is None and produced != expected:
+                    bad = "build wrote %d documents for %d matching files (unexpected: %s)" % (
+                        len(produced), len(expected), ", ".join(sorted(set(produced) - set(expected)))[:80])
                 if bad is None and pr.returncode != 0:
                     bad = "build converted every file but reports exit status %d" % pr.returncode
                 if bad:
